@@ -153,6 +153,8 @@ pub open spec fn spec_extract_map2(h: Htlc) -> HTLCInfo2 { htlc_info_of(h) }
 // contract in units channel_cp, channel_holder; DESIGN.md section 6.9)
 pub uninterp spec fn chan_signed_cp2(c: VxChanView, point: PublicKey, n: u64, feerate: u32, to_holder: u64, to_cp: u64, offered: Seq<HTLCInfo2>, received: Seq<HTLCInfo2>,
     r: Result<(Signature, Vec<Signature>), Status>, after: VxChanView) -> bool;
+pub uninterp spec fn chan_signed_cp1(c: VxChanView, tx: Transaction, witscripts: Seq<Vec<u8>>, point: PublicKey, n: u64, feerate: u32, offered: Seq<HTLCInfo2>, received: Seq<HTLCInfo2>,
+    r: Result<Signature, Status>, after: VxChanView) -> bool;
 pub uninterp spec fn chan_validated_cp_revocation(c: VxChanView, n: u64, secret: SecretKey, r: Result<(), Status>, after: VxChanView) -> bool;
 pub uninterp spec fn chan_signed_holder2(c: VxChanView, n: u64, r: Result<Signature, Status>, after: VxChanView) -> bool;
 pub uninterp spec fn chan_point(c: VxChanView, n: u64, r: Result<PublicKey, Status>) -> bool;
@@ -174,6 +176,11 @@ impl VxChan {
         to_holder_value_sat: u64, to_counterparty_value_sat: u64, offered_htlcs: Vec<HTLCInfo2>, received_htlcs: Vec<HTLCInfo2>) -> (r: Result<(Signature, Vec<Signature>), Status>)
         ensures chan_signed_cp2(old(self)@, *remote_per_commitment_point, commitment_number, feerate_per_kw, to_holder_value_sat, to_counterparty_value_sat,
             offered_htlcs@, received_htlcs@, r, final(self)@)
+    { unimplemented!() }
+    #[verifier::external_body]
+    pub fn sign_counterparty_commitment_tx(&mut self, tx: &Transaction, output_witscripts: &Vec<Vec<u8>>, remote_per_commitment_point: &PublicKey, commitment_number: u64,
+        feerate_per_kw: u32, offered_htlcs: Vec<HTLCInfo2>, received_htlcs: Vec<HTLCInfo2>) -> (r: Result<Signature, Status>)
+        ensures chan_signed_cp1(old(self)@, *tx, output_witscripts@, *remote_per_commitment_point, commitment_number, feerate_per_kw, offered_htlcs@, received_htlcs@, r, final(self)@)
     { unimplemented!() }
     #[verifier::external_body]
     pub fn validate_counterparty_revocation(&mut self, revoke_num: u64, old_secret: &SecretKey) -> (r: Result<(), Status>)
@@ -241,6 +248,13 @@ pub fn vx_clone_htlcs(v: &Vec<HTLCInfo2>) -> (r: Vec<HTLCInfo2>) ensures r@ == v
 pub struct SignRemoteCommitmentTx2 { pub remote_per_commitment_point: PubKey, pub commitment_number: u64, pub feerate: u32, pub to_local_value_sat: u64,
     pub to_remote_value_sat: u64, pub htlcs: VxHtlcArray }
 pub struct ValidateRevocation { pub commitment_number: u64, pub commitment_secret: DisclosedSecret }
+// WithSize<Transaction> / WithSize<PsbtWrapper>: the transaction and the PSBT the message carries
+#[verifier::external_body] pub struct VxPsbt { _p: u8 }
+pub struct VxPsbtWrapper { pub inner: VxPsbt }
+pub uninterp spec fn psbt_witscripts(p: VxPsbt) -> Seq<Vec<u8>>;           // extract_psbt_witscripts: the witness script of every PSBT output (empty when absent)
+#[verifier::external_body] pub fn extract_psbt_witscripts(p: &VxPsbt) -> (r: Vec<Vec<u8>>) ensures r@ == psbt_witscripts(*p) { unimplemented!() }
+pub struct SignRemoteCommitmentTx { pub tx: Transaction, pub psbt: VxPsbtWrapper, pub remote_funding_key: PubKey, pub remote_per_commitment_point: PubKey,
+    pub option_static_remotekey: bool, pub commitment_number: u64, pub htlcs: VxHtlcArray, pub feerate: u32 }
 pub struct SignLocalCommitmentTx2 { pub commitment_number: u64 }
 pub struct ValidateCommitmentTx2 { pub commitment_number: u64, pub feerate: u32, pub to_local_value_sat: u64, pub to_remote_value_sat: u64, pub htlcs: VxHtlcArray,
     pub signature: BitcoinSignature, pub htlc_signatures: VxSigArray }
@@ -491,6 +505,37 @@ impl ChannelHandler {
         // which secrets may be released
         *final(chan) == *old(chan),                                                                            //[C01.handler.check-future-secret-changes-nothing] [C10.handler.check-future-secret-changes-nothing]
         chan_checked_future_secret(old(chan)@, m.commitment_number, secret_key, r),
+//@end
+
+// ------------------------------------------------ SignRemoteCommitmentTx (the raw-transaction entry point)
+//@fn vls-protocol-signer/src/handler.rs :: impl Handler for ChannelHandler :: do_handle closure=1 after="Message::SignRemoteCommitmentTx\(m\) =>" as=sign_remote_commitment_tx_closure props=C04,C03
+//@sig fn sign_remote_commitment_tx_closure(&self, chan: &mut VxChan, tx: Transaction, witscripts: Vec<Vec<u8>>, remote_per_commitment_point: PublicKey, commit_num: u64, feerate_sat_per_kw: u32, offered_htlcs: &Vec<HTLCInfo2>, received_htlcs: &Vec<HTLCInfo2>) -> (r: Result<Signature, Status>)
+    ensures chan_signed_cp1(old(chan)@, tx, witscripts@, remote_per_commitment_point, commit_num, feerate_sat_per_kw, offered_htlcs@, received_htlcs@, r, final(chan)@),   //[C04.handler.sign-remote1-closure-one-call-with-the-captured-values]
+//@sub /offered_htlcs\.clone\(\)/ => vx_clone_htlcs(offered_htlcs)
+//@sub /received_htlcs\.clone\(\)/ => vx_clone_htlcs(received_htlcs)
+//@end
+
+    pub open spec fn sign_remote1_done(&self, tx: Transaction, witscripts: Seq<Vec<u8>>, point: PublicKey, n: u64, feerate: u32, offered: Seq<HTLCInfo2>, received: Seq<HTLCInfo2>,
+        r: Result<Signature, Status>) -> bool {
+        exists|c0: VxChanView, c1: VxChanView| node_channel(self.node, self.channel_id, c0) && #[trigger] chan_signed_cp1(c0, tx, witscripts, point, n, feerate, offered, received, r, c1)
+    }
+    #[verifier::external_body]
+    pub fn vx_with_channel_sign_remote1(&self, tx: &Transaction, witscripts: &Vec<Vec<u8>>, remote_per_commitment_point: PublicKey, commit_num: u64, feerate_sat_per_kw: u32,
+        offered_htlcs: &Vec<HTLCInfo2>, received_htlcs: &Vec<HTLCInfo2>) -> (r: Result<Signature, Status>)
+        ensures r.is_ok() ==> self.sign_remote1_done(*tx, witscripts@, remote_per_commitment_point, commit_num, feerate_sat_per_kw, offered_htlcs@, received_htlcs@, r)
+    { unimplemented!() }
+
+//@fn vls-protocol-signer/src/handler.rs :: impl Handler for ChannelHandler :: do_handle arm="Message::SignRemoteCommitmentTx\(m\)" as=arm_sign_remote_commitment_tx props=C04,C03,C06
+//@sig fn arm_sign_remote_commitment_tx(&self, m: SignRemoteCommitmentTx) -> (r: Result<VxReply, Status>)
+    ensures
+        // the raw entry point of the channel is handed THE transaction of the message (which it accepts only if it is the canonical
+        // one, unit channel_cp), the witness scripts of the message's PSBT, and the number, point, fee rate and HTLCs of the message
+        r.is_ok() ==> exists|sig: Signature| #[trigger] self.sign_remote1_done(m.tx, psbt_witscripts(m.psbt.inner), key_of_wire(m.remote_per_commitment_point), m.commitment_number, m.feerate,
+                htlcs_offered_by_peer(m.htlcs.v@), htlcs_offered_by_node(m.htlcs.v@), Ok(sig))                      //[C04.handler.sign-remote1-transaction-and-content-of-the-message] [C03.handler.sign-remote1-number-and-point-of-the-message] [C06.handler.sign-remote1-htlc-directions]
+            && r->Ok_0 == reply_sign_tx(sig),
+//@sub /(?s)self\.node\.with_channel\(&self\.channel_id, \|chan\| \{.*?\n\s*\}\)\?/ => self.vx_with_channel_sign_remote1(&tx, &witscripts, remote_per_commitment_point, commit_num, feerate_sat_per_kw, &offered_htlcs, &received_htlcs)?
+//@sub /Ok\(Box::new\(msgs::SignTxReply \{ signature: (.*?) \}\)\)/ => Ok(vx_reply_sign_tx(\1))
+//@sub /extract_htlcs\(&m\.htlcs\)/ => extract_htlcs(m.htlcs.v.as_slice())
 //@end
 
 } // impl
